@@ -32,8 +32,11 @@ class INTERVAL(ColumnElement):
 @compiles(INTERVAL)
 def _compile_interval(element, compiler, **kw):
     items = element.info.split(' ', maxsplit=1)
-    # quote first element
-    items[0] = f"'{items[0]}'"
+    if len(items) == 2 and not re.fullmatch(r'[A-Za-z_]+', items[1]):
+        # more than `<value> <unit>`: the whole text is the literal
+        items = [element.info]
+    # first element is a string literal of the target
+    items[0] = compiler.render_literal_value(items[0], sa.String())
     return "INTERVAL " + " ".join(items)
 
 
